@@ -3,20 +3,17 @@ package main
 import (
 	"fmt"
 	"os"
-	"time"
+	"strconv"
 
 	"lvharness/c16"
-	"lvharness/hx"
 )
 
+// dbg16 <seed> <phase> <count> <kind>: print what one fuzz window changed.
 func main() {
-	ex := c16.P{}.NewExec()
-	t := time.Now()
-	go func() {
-		time.Sleep(25 * time.Second)
-		fmt.Println("HANG; dumping goroutines")
-		panic("hang")
-	}()
-	fmt.Println(hx.SafeExec(ex, "fuzz seed="+os.Args[1]+" phase="+os.Args[2]+" count=150 kind="+os.Args[3]))
-	fmt.Println(hx.SafeExec(ex, "diag"), time.Since(t))
+	seed, _ := strconv.ParseInt(os.Args[1], 10, 64)
+	phase, _ := strconv.Atoi(os.Args[2])
+	count, _ := strconv.Atoi(os.Args[3])
+	for _, s := range c16.Debug(seed, phase, count, os.Args[4]) {
+		fmt.Println(s)
+	}
 }
